@@ -416,6 +416,7 @@ func init() {
 			defer func() { socketace.HandshakeTimeout = 30 * time.Second }()
 		}
 		var srv string
+		var late []net.Conn
 		w, err := newE2E(carrier, func(target string) string { srv = target; return target })
 		if err != nil {
 			fmt.Fprintln(os.Stderr, "verifharness: scenario setup failed:", err)
@@ -450,6 +451,10 @@ func init() {
 					dc.Write([]byte{0, 1, 2, 3, 255, 254})
 				case "scanner":
 					dc.Write([]byte("GET /\r\n\r\n"))
+				case "between-late":
+					// the first request now; the second one only after the endpoint's handshake limit has passed (see below)
+					dc.Write([]byte("X-SOCKETACE / HTTP/1.1\r\nAccepts-Protocol-Version: v2.0.0\r\n\r\n"))
+					late = append(late, dc)
 				case "garbage-vanish":
 					// a complete but invalid request (the server's refusal is queued for the peer), then the peer stops polling for good
 					dc.Write([]byte("GARBAGE GARBAGE GARBAGE\r\n\r\n"))
@@ -503,6 +508,15 @@ func init() {
 			time.Sleep(60 * time.Millisecond)
 			if expire {
 				time.Sleep(socketace.HandshakeTimeout + 800*time.Millisecond)
+			}
+			for _, dc := range late {
+				// the peer that was silent past the limit speaks again (its write may never be answered: do not wait for it)
+				go func(dc net.Conn) {
+					dc.Write([]byte("GET / HTTP/1.1\r\nUpgrade: socketace/v2.0.0\r\nConnection: upgrade\r\n\r\n"))
+				}(dc)
+			}
+			if len(late) > 0 {
+				time.Sleep(500 * time.Millisecond)
 			}
 			if stale > 0 {
 				// the stalled peers' sessions outlive the idle limit: whatever the endpoint does to retire them must not shut others out
